@@ -641,6 +641,36 @@ def check_traj_case(run, c, k, impl_lines, scratch, model):
     for b in c["biases"] + [e[1] for e in c["events"] if e[0] == "addbias"]:
         biasvars["b%d" % b["id"]] = ["v%d" % i for i in b["vars"]]
     ncmp = 0
+    if c.get("lagged") and c.get("eforce"):
+        # tie of the lagged total-force model: first segment, plain scalar variables
+        nfirst = len(segs[0]["calcs"])
+        efx = {v["id"]: c["eforce"][v["id"]] for v in c["vars"]}
+        efl = []
+        for ev in c["events"]:
+            if ev[0] == "step":
+                if len(ev) > 2 and ev[2]:
+                    for vid, f in ev[2].items():
+                        efx[int(vid)] = f
+                efl.append(dict(efx))
+        for v in c["vars"]:
+            if v["type"] != "z" or v.get("extlag"):
+                continue
+            fh = flag_history(c, v["id"], "tforce")
+            if not any(fh[:nfirst]):
+                continue
+            hl = ["%d %d %s" % (calcs[j]["it"] - c["it0"], 1 if fh[j] else 0, hx(efl[j][v["id"]])) for j in range(nfirst)]
+            rc3, m3, e3 = V.run_lines(model, ["LFRUN %d %s" % (nfirst, " ".join(hl))])
+            if rc3 != 0 or not m3:
+                run.mismatch("lagged-model", c, e3[-200:], m3[:1])
+                continue
+            mft = [float.fromhex(q) for q in m3[0].split()]
+            for j in range(nfirst):
+                if fh[j]:
+                    run.dist("tie:lagged-ft")
+                    got = calcs[j]["v"]["v%d" % v["id"]]["ft"]
+                    if not close(got, mft[j]):
+                        run.mismatch("lagged-ft", c, (calcs[j]["it"], got), (calcs[j]["it"], mft[j]))
+                        break
     c06exp = c06_expectations(c)
     deleted_at = {}
     jj = 0
